@@ -190,14 +190,29 @@ impl GenerationPass for AvailableValuePass {
                 if let Some((reg, reg_value)) = node.gen_reg_value() {
                     out_reg_n.insert(reg, reg_value);
                 }
-                if node.is_handler_function_entry() {
-                    out_reg_n.extend(Register::all_writable_set().into_available_values());
-                }
-                if node.is_function_entry() {
-                    out_reg_n.extend(Register::callee_saved_set().into_available_values());
-                }
-                if node.is_program_entry() {
-                    out_reg_n.extend(Register::sp_ra_set().into_available_values());
+                if node.is_any_entry() {
+                    // An entry starts a new state: what its caller guarantees.
+                    let mut entry_values = AvailableValueMap::new();
+                    if node.is_handler_function_entry() {
+                        entry_values.extend(Register::all_writable_set().into_available_values());
+                    }
+                    if node.is_function_entry() {
+                        entry_values.extend(Register::callee_saved_set().into_available_values());
+                    }
+                    if node.is_program_entry() {
+                        entry_values.extend(Register::sp_ra_set().into_available_values());
+                    }
+                    // If the function also comes back to its entry from inside
+                    // (a loop or a jump to its own label), only what holds on
+                    // those paths as well is known.
+                    if let Some(func) = node.is_function_entry_with_func() {
+                        for prev in node.prevs().iter() {
+                            if visited.contains(prev) && prev.functions().contains(&func) {
+                                entry_values &= &prev.reg_values_out();
+                            }
+                        }
+                    }
+                    out_reg_n = entry_values;
                 }
 
                 // out_memory[n] = (gen_memory[n] if we know the location of the stack pointer) U in_memory[n]
